@@ -359,7 +359,110 @@ def _const_str(node):
         a, b = _const_str(node.left), _const_str(node.right)
         if a is not None and b is not None:
             return a + b
+    if isinstance(node, ast.JoinedStr):
+        parts = []
+        for v in node.values:
+            if isinstance(v, ast.FormattedValue):
+                if v.format_spec is not None or v.conversion != -1:
+                    return None
+                v = v.value
+            t = _const_str(v)
+            if t is None:
+                return None
+            parts.append(t)
+        return "".join(parts)
     return None
+
+
+def _sql_value(fn, name):
+    """(text, complete) of the string local `name` at the end of the function's straight-line top level: assignments of
+    constants, `x = x + e` / `x += e`, f-strings with constant parts, `sep.join(L)` for a list local L of constants, and
+    `if L:` on such a list.  complete=False when the text depends on something else (the prefix evaluated so far is returned)."""
+    strs, lists = {}, {}
+
+    def ev(e):
+        t = _const_str(e)
+        if t is not None:
+            return t
+        if isinstance(e, ast.Name):
+            return strs.get(e.id)
+        if isinstance(e, ast.BinOp) and isinstance(e.op, ast.Add):
+            a, b = ev(e.left), ev(e.right)
+            return a + b if a is not None and b is not None else None
+        if isinstance(e, ast.JoinedStr):
+            parts = []
+            for v in e.values:
+                if isinstance(v, ast.FormattedValue):
+                    if v.format_spec is not None or v.conversion != -1:
+                        return None
+                    v = v.value
+                t = ev(v)
+                if t is None:
+                    return None
+                parts.append(t)
+            return "".join(parts)
+        if isinstance(e, ast.Call) and isinstance(e.func, ast.Attribute) and e.func.attr == "join" and len(e.args) == 1:
+            sep = ev(e.func.value)
+            lst = e.args[0]
+            items = lists.get(lst.id) if isinstance(lst, ast.Name) else ([ev(x) for x in lst.elts] if isinstance(lst, (ast.List, ast.Tuple)) else None)
+            if sep is None or items is None or any(i is None for i in items):
+                return None
+            return sep.join(items)
+        return None
+
+    complete = True
+
+    def block(stmts):
+        nonlocal complete
+        for st in stmts:
+            if not complete:
+                return
+            if isinstance(st, ast.Assign) and len(st.targets) == 1 and isinstance(st.targets[0], ast.Name):
+                t = st.targets[0].id
+                if isinstance(st.value, (ast.List, ast.Tuple)):
+                    items = [ev(x) for x in st.value.elts]
+                    if all(i is not None for i in items):
+                        lists[t] = items
+                    else:
+                        lists.pop(t, None)
+                    continue
+                v = ev(st.value)
+                if v is not None:
+                    strs[t] = v
+                elif t == name:
+                    complete = False
+                else:
+                    strs.pop(t, None)
+            elif isinstance(st, ast.AugAssign) and isinstance(st.target, ast.Name) and isinstance(st.op, ast.Add):
+                t = st.target.id
+                v = ev(st.value)
+                if t in strs and v is not None:
+                    strs[t] = strs[t] + v
+                elif t == name:
+                    complete = False
+            elif isinstance(st, ast.If) and isinstance(st.test, ast.Name) and st.test.id in lists:
+                block(st.body if lists[st.test.id] else st.orelse)
+            elif isinstance(st, ast.If) and isinstance(st.test, (ast.List, ast.Tuple)):
+                block(st.body if st.test.elts else st.orelse)
+            elif isinstance(st, ast.Expr):
+                c = st.value
+                if isinstance(c, ast.Call) and isinstance(c.func, ast.Attribute) and c.func.attr == "append" and isinstance(c.func.value, ast.Name) \
+                        and c.func.value.id in lists and len(c.args) == 1 and ev(c.args[0]) is not None:
+                    lists[c.func.value.id] = lists[c.func.value.id] + [ev(c.args[0])]
+                continue
+            elif any(isinstance(x, ast.Name) and x.id == name and isinstance(x.ctx, ast.Store) for x in ast.walk(st)) or \
+                    any(isinstance(x, ast.Call) and isinstance(x.func, ast.Attribute) and x.func.attr in ("append", "extend", "insert") and isinstance(x.func.value, ast.Name)
+                        and x.func.value.id in lists for x in ast.walk(st)):
+                # the text (or a clause list it is joined from) is built conditionally below here
+                for x in ast.walk(st):
+                    if isinstance(x, ast.Call) and isinstance(x.func, ast.Attribute) and x.func.attr in ("append", "extend", "insert") and isinstance(x.func.value, ast.Name):
+                        lists.pop(x.func.value.id, None)
+                if any(isinstance(x, ast.Name) and x.id == name and isinstance(x.ctx, ast.Store) for x in ast.walk(st)):
+                    complete = False
+            elif isinstance(st, ast.If) and isinstance(st.test, ast.Name) and any(isinstance(x, ast.Name) and x.id == name and isinstance(x.ctx, ast.Store) for x in ast.walk(st)):
+                complete = False
+    block(fn.body)
+    return strs.get(name), complete
 
 
 def execute_sites(fn):
@@ -374,18 +477,32 @@ def execute_sites(fn):
             text = _const_str(sqlnode)
             dynamic = False
             if text is None and isinstance(sqlnode, ast.Name):
-                defs = _string_defs(fn, sqlnode.id)
-                first = _const_str(defs[0]) if defs else None
-                if first is None:
-                    raise AnalysisError(f"SQL text of execute() at line {n.lineno} cannot be folded")
-                text = first
-                dynamic = True
+                full, complete = _sql_value(fn, sqlnode.id)
+                if full is not None and complete:
+                    text = full  # built in pieces, but every piece is a constant
+                else:
+                    defs = _string_defs(fn, sqlnode.id)
+                    first = _const_str(defs[0]) if defs else None
+                    if first is None:
+                        raise AnalysisError(f"SQL text of execute() at line {n.lineno} cannot be folded")
+                    text = first
+                    dynamic = True
             elif text is None:
                 raise AnalysisError(f"SQL text of execute() at line {n.lineno} cannot be folded: {unparse(sqlnode)[:60]}")
             stmt = parse(text)
             args = None
             if len(n.args) > 1:
                 a = n.args[1]
+                if isinstance(a, ast.Call) and isinstance(a.func, ast.Name) and a.func.id in ("tuple", "list") and len(a.args) == 1 and not a.keywords:
+                    a = a.args[0]
+                if isinstance(a, ast.Name) and not dynamic:
+                    # a local bound once to a literal sequence (and never extended) is that sequence
+                    defs = [x for x in walk_no_nested(fn) if isinstance(x, ast.Assign) and len(x.targets) == 1 and isinstance(x.targets[0], ast.Name) and x.targets[0].id == a.id]
+                    grown = any(isinstance(x, ast.Call) and isinstance(x.func, ast.Attribute) and isinstance(x.func.value, ast.Name) and x.func.value.id == a.id
+                                and x.func.attr in ("append", "extend", "insert", "pop", "remove") for x in walk_no_nested(fn)) or \
+                        any(isinstance(x, ast.AugAssign) and isinstance(x.target, ast.Name) and x.target.id == a.id for x in walk_no_nested(fn))
+                    if len(defs) == 1 and isinstance(defs[0].value, (ast.Tuple, ast.List)) and not grown:
+                        a = defs[0].value
                 if isinstance(a, (ast.Tuple, ast.List)):
                     args = list(a.elts)
                 elif dynamic:
